@@ -316,6 +316,10 @@ def run(ctx):
     if nloads > 1 and same_world:
         nloads = 4 + t.draw(9, "nreloads")  # many identical reloads make id recycling (near) certain in any process
     kw = {"global_repository": True} if family == "plaingr" else {}
+    # the match rule of the references may have any name - also one that textX uses internally for parse-tree nodes
+    ctx.qn = t.pick(["QN", "QN", "QN", "sep"], "match-rule-name")
+    if ctx.qn != "QN":
+        ctx.probe("match-rule-called-sep")
     ucls = draw_user_classes(t)
     ctx.ucls = ucls
     if ucls:
@@ -329,7 +333,7 @@ def run(ctx):
 
         nb = 1 + t.draw(3, "n-builtin-defs")
         btext = " ".join(f"def bi{i}" for i in range(nb))
-        bm = metamodel_from_str(grammar()).model_from_str(btext)
+        bm = metamodel_from_str(grammar(qn=ctx.qn)).model_from_str(btext)
         repo = ModelRepository()
         repo.add_model(bm)
         ents = []
@@ -358,7 +362,7 @@ def run(ctx):
         tools = flags[0]
         ctx.lang2 = {"tools": flags[1]}
         ctx.probe("two-languages")
-    mm = metamodel_from_str(grammar(), textx_tools_support=tools, memoization=memo, **kw)
+    mm = metamodel_from_str(grammar(qn=ctx.qn), textx_tools_support=tools, memoization=memo, **kw)
     sigs = []
     samples = []
     nontrivial = False
@@ -437,7 +441,7 @@ def episode(ctx, t, prop, family, tools, memo, mm, rep):
     }
 
     def build(scheduler):
-        m2 = metamodel_from_str(grammar(), textx_tools_support=tools, memoization=memo,
+        m2 = metamodel_from_str(grammar(qn=ctx.qn), textx_tools_support=tools, memoization=memo,
                                 **({"global_repository": True} if family == "plaingr" else {}),
                                 **({"builtin_models": ctx.builtin["repo"]} if ctx.builtin else {}),
                                 **({"classes": make_user_classes(ctx.ucls)} if ctx.ucls else {}))
@@ -450,7 +454,7 @@ def episode(ctx, t, prop, family, tools, memo, mm, rep):
         a fresh metamodel of their own"""
         if not ctx.lang2:
             return
-        mn = metamodel_from_str(grammar(), textx_tools_support=ctx.lang2["tools"], memoization=memo,
+        mn = metamodel_from_str(grammar(qn=ctx.qn), textx_tools_support=ctx.lang2["tools"], memoization=memo,
                                 **({"builtin_models": ctx.builtin["repo"]} if ctx.builtin else {}),
                                 **({"classes": make_user_classes(ctx.ucls)} if ctx.ucls else {}))
         mn.register_scope_providers({"*.*": make_provider(family, root, scheduler, ctx, inner)})
@@ -549,6 +553,10 @@ def episode(ctx, t, prop, family, tools, memo, mm, rep):
         if sorted(map(id, got)) != sorted(map(id, exp)):
             ctx.violate("C09", "result-independent-of-order", f"{family}/list-content",
                         f"{u.sid()}.refs = {[getattr(x, 'name', x) for x in got]}, expected (any order) "
+                        f"{[x.name for x in exp]}")
+            # "the resolved list contains the targets": a list that lost or gained elements is not that list either
+            ctx.violate("C08", "content", f"{family}/{mode}",
+                        f"{u.sid()}.refs = {[getattr(x, 'name', x) for x in got]}, the references in the text are "
                         f"{[x.name for x in exp]}")
         elif [id(x) for x in got] != [id(x) for x in exp]:
             ctx.violate("C08", "order", f"{family}/{mode}",
